@@ -129,8 +129,13 @@ pub fn to_line(cmd: &Value) -> String {
         // MODE target {modestring args..}*, USERHOST/ISON nick.., everything else: all
         // parameters as middle parameters
         _ => {
-            for grp in p.iter() {
-                for x in grp {
+            let flat: Vec<&String> = p.iter().flat_map(|g| g.iter()).collect();
+            let n = flat.len();
+            for (i, x) in flat.iter().enumerate() {
+                // a last parameter that could not travel as a middle one (blanks, leading colon, empty) goes as trailing
+                if i + 1 == n && (x.contains(' ') || x.starts_with(':') || x.is_empty()) {
+                    trail(&mut out, x);
+                } else {
                     mid(&mut out, x);
                 }
             }
